@@ -336,6 +336,17 @@ def pair_histories(draw):
     ops += draw(filler)
     ops.append(draw(st.one_of(st.tuples(st.just('write'), st.sampled_from([f1, f2]), st.integers(0, len(CONTENTS) - 1)),
                               st.tuples(st.just('copy'), st.sampled_from([f1, f2, draw(_F)]), st.sampled_from([f1, f2])))))
+    if draw(st.integers(0, 2)) == 0:
+        # the first parse after the change cannot save (or is interrupted); afterwards the change is perhaps undone
+        undo = draw(st.integers(0, 1))
+        if undo:
+            i0, i1 = draw(st.integers(0, len(CONTENTS) - 1)), draw(st.integers(0, len(CONTENTS) - 1))
+            ops = [('write', f1, i0)] + ops + [('write', f1, i1)]
+        ops.append(draw(st.one_of(
+            st.tuples(st.just('parse_save_fails'), st.sampled_from([f1, f2]), st.just(v), st.sampled_from(['cache', 'cache+diff', 'cache+diff']), st.booleans()),
+            st.tuples(st.just('parse_aborted'), st.sampled_from([f1, f2]), st.just(v), st.just(d), st.sampled_from(['cache', 'none']), st.integers(1, 400)))))
+        if undo:
+            ops.append(('write', f1, i0))
     order = [f1, f2] if draw(st.booleans()) else [f2, f1]
     ops += [('parse', order[0], v, d, draw(m))]
     ops += draw(st.lists(_op, max_size=1))
